@@ -49,6 +49,28 @@ func checkVerify(c sigCase) (h.Info, error) {
 	if got != want {
 		return info, fmt.Errorf("Verify(pk=%x, msg=%x, sig=%x) [%s] = %v, ZIP-215 reference = %v (first failing condition: %q)", []byte(c.PK), []byte(c.Msg), []byte(c.Sig), c.Kind, got, want, stage)
 	}
+	// the verdict must not depend on how the caller's slices are laid out in memory: key, signature
+	// and message as adjacent sub-slices of one buffer (spare capacity running into the next field),
+	// and the inputs must come back unmodified
+	for layout := 0; layout < 2; layout++ {
+		var buf []byte
+		var key, sg, m []byte
+		if layout == 0 {
+			buf = append(append(append(make([]byte, 0, 32+len(c.Sig)+len(c.Msg)+64), c.PK...), c.Sig...), c.Msg...)
+			key, sg, m = buf[:32], buf[32:32+len(c.Sig)], buf[32+len(c.Sig):]
+		} else {
+			buf = append(append(append(make([]byte, 0, 32+len(c.Sig)+len(c.Msg)+64), c.Msg...), c.PK...), c.Sig...)
+			m, key, sg = buf[:len(c.Msg)], buf[len(c.Msg):len(c.Msg)+32], buf[len(c.Msg)+32:]
+		}
+		snapshot := append([]byte{}, buf...)
+		got2 := ed25519.Verify(ed25519.PublicKey(key), m, sg)
+		if got2 != want {
+			return info, fmt.Errorf("Verify(pk=%x, msg=%x, sig=%x) [%s] = %v when key/message/signature are adjacent sub-slices of one buffer (layout %d), ZIP-215 reference = %v", []byte(c.PK), []byte(c.Msg), []byte(c.Sig), c.Kind, got2, layout, want)
+		}
+		if string(buf) != string(snapshot) {
+			return info, fmt.Errorf("Verify modified the caller's buffer (layout %d)", layout)
+		}
+	}
 	// everything crypto/ed25519 accepts is accepted
 	if len(c.Sig) == 64 && stded.Verify(stded.PublicKey(c.PK), c.Msg, c.Sig) && !got {
 		return info, fmt.Errorf("crypto/ed25519 accepts (pk=%x, msg=%x, sig=%x) but Verify rejects", []byte(c.PK), []byte(c.Msg), []byte(c.Sig))
